@@ -39,7 +39,14 @@ DimacsWhy(e) ==
   ELSE IF \E j \in 1..Len(e.map) : e.map[j][1] = 0 \/ e.map[j][2] < 1 \/ e.map[j][2] > e.hdrVars THEN "dimacs-name-table"
   ELSE IF Cardinality({e.map[j][2] : j \in 1..Len(e.map)}) # Len(e.map)
           \/ Cardinality(Mapped(e)) # Len(e.map) THEN "dimacs-name-table-not-injective"
-  ELSE IF e.hdrVars > 13 THEN ""        \* too large for exhaustive comparison; covered by solving (C11)
+  ELSE IF e.hdrVars > 13
+  THEN (* too large for exhaustive comparison: every formula model, asserted on the mapped names,   *)
+       (* must survive unit propagation on the export (definitional encodings complete their       *)
+       (* auxiliary variables by propagation); a conflict means the model is lost                   *)
+       LET EC == {Range(e.clauses[j]) : j \in 1..Len(e.clauses)}
+           Asserted(a) == {IF a[v] THEN DimOf(e, v) ELSE -DimOf(e, v) : v \in Mapped(e)}
+       IN IF \E a \in tt : UP(EC, Asserted(a)) = CONFLICT THEN "dimacs-formula-model-lost"
+          ELSE ""
   ELSE LET EM == ExportModels(e)
            (* formula assignments that agree with export model x on the mapped names *)
            Ext(x) == {a \in Assignments(K) : \A v \in Mapped(e) : a[v] = x[DimOf(e, v)]}
